@@ -233,3 +233,38 @@ def calibrate(vec_dir: str) -> t.List[str]:
         except Exception as e:
             bad.append(f"{name}: {type(e).__name__}: {e}")
     return bad
+
+
+def reference_protect(
+    plaintext: bytes,
+    sid: str,
+    rkid: uuid.UUID,
+    rk: RootKey,
+    l0: int,
+    l1: int,
+    l2: int,
+    *,
+    nonce: bytes,
+    cek: bytes,
+    gcm_nonce: bytes,
+    in_envelope: bool = True,
+    domain: str = "",
+    forest: str = "",
+    flags: int = 2,
+    public: t.Optional[dict] = None,
+) -> bytes:
+    """Build a DPAPI-NG blob with reference crypto only (what a Windows peer would emit).
+    public = {'key_info': bytes, 'kek': bytes} switches to public-key mode (caller computed)."""
+    s = sd.canonical_sid_from_string(sid)
+    l2k = crypto.l2_key_single(rk.hash_name, rk.key, rkid, sd.target_sd(s), l0, l1, l2)
+    if public is None:
+        key_info = nonce
+        kek = crypto.kek_nonce(rk.hash_name, l2k, nonce)
+    else:
+        key_info, kek, flags = public["key_info"], public["kek"], flags | 1
+    kid = gkdi.enc_key_identifier(
+        dict(version=1, flags=flags, l0=l0, l1=l1, l2=l2, root_key_identifier=rkid, key_info=key_info, domain_name=domain, forest_name=forest)
+    )
+    enc_cek = crypto.aes_kw_wrap(kek, cek)
+    enc_content = crypto.gcm_encrypt(cek, gcm_nonce, plaintext)
+    return build(kid, protection_descriptor(sid), enc_cek, enc_content, gcm_parameters(gcm_nonce), in_envelope=in_envelope)
